@@ -1,1 +1,39 @@
-fn main(){}
+//! Check binary for the property that needs elvis-core built with `compute_checksum`
+//! (cargo unifies features per build, so this is its own binary).
+//! Usage: vsum <ID> --tier quick|thorough [--replay file]
+
+mod c18;
+
+use vkit::report::{load_replay, parse_args, Report};
+
+fn main() {
+    let args = parse_args();
+    vkit::install_panic_hook();
+    rayon::ThreadPoolBuilder::new()
+        .num_threads(vkit::threads())
+        .stack_size(16 << 20)
+        .build_global()
+        .ok();
+    if let Some(path) = &args.replay {
+        let v = load_replay(path);
+        let w = &v["witness"];
+        let out = match args.id.as_str() {
+            "C18" => c18::replay(w, &args.tier),
+            other => format!("no replay for {other}"),
+        };
+        println!("{out}");
+        return;
+    }
+    let code = match args.id.as_str() {
+        "C18" => {
+            let mut r = Report::new("C18", &args.tier, "model_checking");
+            c18::run(&mut r, &args.tier);
+            r.finish()
+        }
+        other => {
+            eprintln!("MACHINERY-ERROR unknown property {other}");
+            2
+        }
+    };
+    std::process::exit(code);
+}
